@@ -1166,6 +1166,9 @@ def gen_subinst(rng):
     nv = rng.randrange(2, 9)
     ncl = rng.randrange(1, 5)
     row = [rng.randrange(ncl) for _ in range(k)]
+    if rng.random() < 0.5:      # collapsed start: all threads on at most two clusters
+        a_, b_ = rng.randrange(ncl), rng.randrange(ncl)
+        row = [rng.choice([a_, a_, b_]) for _ in range(k)]
     threads = []
     for p in range(nv):
         if rng.random() < 0.3:
@@ -1182,7 +1185,7 @@ def gen_subinst(rng):
     for i in range(rng.randrange(0, 9)):
         a = rng.randrange(nv); b = rng.randrange(a, nv)
         cols = [c for c in range(a, b + 1) if rng.random() < 0.8] or [a]
-        reads.append([rng.randrange(ncl), [[c, rng.randrange(na)] for c in cols]])
+        reads.append([rng.choice(row) if rng.random() < 0.7 else rng.randrange(ncl), [[c, rng.randrange(na)] for c in cols]])
     return {"kind": "subinst", "ploidy": k, "threads": threads, "haps": haps, "reads": reads, "ncl": ncl,
             "seed": rng.randrange(1 << 30)}
 
